@@ -29,7 +29,7 @@ MANIFEST = dict(
     technique="TLA+ spec (ConstructGrammar.tla) + TLC enumeration of the bounded derivation space; every derivation compiled on the real "
               "compilers, exception classes checked")
 
-KINDSETS = [["select"], ["insert", "update", "delete", "ddl"]]
+KINDSETS = [["select"], ["insert", "update", "delete", "ddl", "cte"]]
 
 
 def _set(xs):
@@ -109,7 +109,8 @@ def main(chk):
               ("insert", "a"): 9, ("insert", "b"): 5, ("insert", "c"): 11, ("insert", "d"): 7,
               ("update", "a"): 9, ("update", "b"): 10, ("update", "c"): 5, ("update", "d"): 7,
               ("delete", "a"): 10, ("delete", "b"): 5, ("delete", "c"): 6,
-              ("ddl", "a"): 9, ("ddl", "b"): 17, ("ddl", "c"): 12, ("ddl", "d"): 6}
+              ("ddl", "a"): 9, ("ddl", "b"): 17, ("ddl", "c"): 12, ("ddl", "d"): 6,
+              ("cte", "a"): 4, ("cte", "b"): 5, ("cte", "c"): 2, ("cte", "d"): 2, ("cte", "e"): 4}
     for k, nprod in expect.items():
         if len(seen.get(k, ())) != nprod:
             chk.machinery("vacuous: dimension %s.%s enumerates %d of %d productions" % (k[0], k[1], len(seen.get(k, ())), nprod))
